@@ -848,3 +848,63 @@ func refWithByte(old byte, q int, k int, size int, raw uint64) byte {
 	}
 	return old
 }
+
+// ---------------------------------------------------------------------
+// H17.2 indexOf / includes on Float32Array / Float64Array: the elements are compared as NUMBERS
+// (IsStrictlyEqual for indexOf, SameValueZero for includes) with the search value.
+
+var vC17KindsFloat = []int{vkFloat32, vkFloat64}
+
+func refFloatMatch(ev float64, se float64, includes bool) bool {
+	if ev == se {
+		return true
+	}
+	return includes && ev != ev && se != se
+}
+
+func H_C17_searchFloat() {
+	op := vNondetInt("op") // 0 indexOf, 1 includes
+	vAssume(op >= 0 && op <= 1)
+	op = vConcretize(op)
+	w := vC17WorldG("w", vC17KindsFloat, 2)
+	sev := vNumber("search")
+	se := sev.ToFloat()
+	call := FunctionCall{This: w.ta.val, Arguments: []Value{sev}}
+	var res Value
+	out := vCatch(func() {
+		if op == 0 {
+			res = w.r.typedArrayProto_indexOf(call)
+		} else {
+			res = w.r.typedArrayProto_includes(call)
+		}
+	})
+	vAssert("searchFloat:no-throw", !out.panicked)
+	if out.panicked {
+		return
+	}
+	want := int64(-1)
+	negZeroElem := false
+	for k := w.ta.length - 1; k >= 0; k-- {
+		raw := vRawAt(w.before, (w.ta.offset+k)*w.size, w.size)
+		ev := refValueOfRaw(w.kind, raw)
+		if refFloatMatch(ev, se, op == 1) {
+			want = int64(k)
+		}
+		if ev == 0 && raw != 0 {
+			negZeroElem = true
+		}
+	}
+	// known: goja compares raw element bits with the raw bits of the search value ROUNDED to the element
+	// type. Failing class: (a) includes(NaN) (payload-dependent), (b) search value 0 with a -0 element,
+	// (c) Float32Array and a search value that is not representable as a float32
+	nanClass := op == 1 && se != se
+	zeroClass := se == 0 && negZeroElem
+	f32Class := w.kind == vkFloat32 && float64(float32(se)) != se
+	known := nanClass || zeroClass || f32Class
+	vAssert("searchFloat:result-defined", res != nil)
+	if op == 1 {
+		vAssertK("searchFloat:includes==SameValueZero", res.ToBoolean() == (want >= 0), known, "F-C17-float-search-raw-compare")
+	} else {
+		vAssertK("searchFloat:indexOf==StrictEquality", res.ToInteger() == want, known, "F-C17-float-search-raw-compare")
+	}
+}
